@@ -55,6 +55,18 @@ Proof.
   rewrite (encode_conforms _ name l (V s1 L1) Hs), (encode_conforms _ name l (V s2 L2) Hs). exact E.
 Qed.
 
+(* the premises are met, and the conclusion bites: two 16-byte deliveries (one fragmented) that differ in one bit
+   give different 12-word sentences *)
+Example C05_new_injective_nonvacuous :
+  valid_wc_z 12 /\ supported "English" 2 /\
+  (Z.to_nat (12 + 12 / 3) <= length (delivered [(repeat x00 7, None); (repeat x00 9, None)]))%nat /\
+  fst (NewMnemonic 12 2 [(repeat x00 7, None); (repeat x00 9, None)]) <>
+  fst (NewMnemonic 12 2 [(repeat x00 15 ++ [x01], None)]).
+Proof.
+  split; [unfold valid_wc_z; lia|]. split; [unfold supported; cbn; tauto|]. split; [cbn; lia|].
+  vm_compute. discriminate.
+Qed.
+
 (* the functions this property is about, and every package function they reach, call only what the model
    accounts for (closed world of callees, computed on coq/Gen/Calls.v, regenerated from the source every run) *)
 Theorem C05_callees : reach_ok "NewMnemonicByEntropy" = true /\ reach_ok "NewMnemonic" = true /\ reach_ok "fromEntropy" = true.
